@@ -79,4 +79,62 @@ theorem accepted_whatever_the_prior_memory (c : Cfg) (hc : c.WellTyped) (w h : I
   have e : initParam c = dflt := defaults_total c {} hc hz
   rw [e]; exact (defaults_accepted w h hw hh).1
 
+/-! ### Documented defaults
+
+The two statements below are a hand transcription of the "Default" column of the parameter tables of
+`Docs/svt-av1_encoder_user_guide.md` (lines 144-287 of the pinned commit), for every parameter whose documented default is a
+number and that maps to one configuration member (TargetBitRate is documented in kbps, the member is in bps).
+`checks/c13.py` re-parses the guide on every run and compares it with the `member = value` conjuncts of these two statements, so
+a documentation change shows up as a stale transcription. -/
+
+/-- **Every documented default is the default the library returns**, whatever the caller's memory contained (except for the
+    members listed in `doc_default_deviations`). -/
+theorem defaults_match_doc (c : Cfg) (hc : c.WellTyped) :
+    (initParam c).encoder_color_format = 1 ∧ (initParam c).profile = 0 ∧ (initParam c).frame_rate_numerator = 0 ∧
+    (initParam c).frame_rate_denominator = 0 ∧ (initParam c).encoder_bit_depth = 8 ∧
+    (initParam c).is_16bit_pipeline = 0 ∧ (initParam c).hierarchical_levels = 4 ∧ (initParam c).pred_structure = 2 ∧
+    (initParam c).high_dynamic_range_input = 0 ∧ (initParam c).logical_processors = 0 ∧ (initParam c).unpin = 1 ∧
+    (initParam c).target_socket = -1 ∧ (initParam c).rate_control_mode = 0 ∧ (initParam c).qp = 50 ∧
+    (initParam c).target_bit_rate = 7000000 ∧ (initParam c).use_qp_file = 0 ∧
+    (initParam c).use_fixed_qindex_offsets = 0 ∧ (initParam c).key_frame_qindex_offset = 0 ∧
+    (initParam c).key_frame_chroma_qindex_offset = 0 ∧ (initParam c).vbr_bias_pct = 50 ∧
+    (initParam c).vbr_min_section_pct = 0 ∧ (initParam c).vbr_max_section_pct = 2000 ∧
+    (initParam c).under_shoot_pct = 25 ∧ (initParam c).over_shoot_pct = 25 ∧ (initParam c).recode_loop = 2 ∧
+    (initParam c).intra_period_length = -2 ∧ (initParam c).intra_refresh_type = 2 ∧ (initParam c).enc_mode = 8 ∧
+    (initParam c).compressed_ten_bit_format = 0 ∧ (initParam c).tile_rows = 0 ∧ (initParam c).tile_columns = 0 ∧
+    (initParam c).disable_dlf_flag = 0 ∧ (initParam c).enable_tpl_la = 1 ∧ (initParam c).cdef_level = -1 ∧
+    (initParam c).enable_restoration_filtering = -1 ∧ (initParam c).sg_filter_mode = -1 ∧
+    (initParam c).wn_filter_mode = -1 ∧ (initParam c).enable_mfmv = -1 ∧ (initParam c).enable_redundant_blk = -1 ∧
+    (initParam c).spatial_sse_full_loop_level = -1 ∧ (initParam c).over_bndry_blk = -1 ∧
+    (initParam c).new_nearest_comb_inject = -1 ∧ (initParam c).nsq_table = -1 ∧
+    (initParam c).frame_end_cdf_update = -1 ∧ (initParam c).set_chroma_mode = -1 ∧
+    (initParam c).disable_cfl_flag = -1 ∧ (initParam c).enable_warped_motion = -1 ∧
+    (initParam c).enable_global_motion = 1 ∧ (initParam c).pic_based_rate_est = -1 ∧
+    (initParam c).intra_angle_delta = -1 ∧ (initParam c).inter_intra_compound = -1 ∧
+    (initParam c).enable_paeth = -1 ∧ (initParam c).enable_smooth = -1 ∧ (initParam c).mrp_level = -1 ∧
+    (initParam c).obmc_level = -1 ∧ (initParam c).rdoq_level = -1 ∧ (initParam c).filter_intra_level = -1 ∧
+    (initParam c).enable_intra_edge_filter = -1 ∧ (initParam c).pred_me = -1 ∧ (initParam c).bipred_3x3_inject = -1 ∧
+    (initParam c).compound_level = -1 ∧ (initParam c).use_default_me_hme = 1 ∧ (initParam c).enable_hme_flag = 1 ∧
+    (initParam c).enable_hme_level0_flag = 1 ∧ (initParam c).intrabc_mode = -1 ∧ (initParam c).palette_level = -1 ∧
+    (initParam c).unrestricted_motion_vector = 1 ∧ (initParam c).speed_control_flag = 0 ∧
+    (initParam c).film_grain_denoise_strength = 0 ∧ (initParam c).tf_level = -1 ∧ (initParam c).altref_strength = 5 ∧
+    (initParam c).enable_overlays = 0 ∧ (initParam c).active_channel_count = 1 ∧ (initParam c).stat_report = 0 := by
+  have hz : (({} : Cfg)).WellTyped := by constructor <;> decide
+  rw [defaults_total c {} hc hz]
+  repeat' apply And.intro
+  all_goals rfl
+
+/-- Where guide and code disagree today: FrameRate (l.150) documented 25, AdaptiveQuantization (l.173) documented 0,
+    LookAheadDistance (l.233) documented 33, ScreenContentMode (l.272) documented 0, HighBitDepthModeDecision (l.274) documented 1,
+    AltRefNframes (l.283) documented 7.  The library returns the values below; each is a recorded finding
+    `C13-docdefault-<member>`.  DOC: frame_rate=25 enable_adaptive_quantization=0 look_ahead_distance=33 screen_content_mode=0 enable_hbd_mode_decision=1 altref_nframes=7 -/
+theorem doc_default_deviations (c : Cfg) (hc : c.WellTyped) :
+    (initParam c).frame_rate = 1966080 ∧ (initParam c).enable_adaptive_quantization = 2 ∧
+    (initParam c).look_ahead_distance = 4294967295 ∧ (initParam c).screen_content_mode = 2 ∧
+    (initParam c).enable_hbd_mode_decision = -1 ∧ (initParam c).altref_nframes = 13 := by
+  have hz : (({} : Cfg)).WellTyped := by constructor <;> decide
+  rw [defaults_total c {} hc hz]
+  repeat' apply And.intro
+  all_goals rfl
+
 end C13
